@@ -534,6 +534,25 @@ func c19Run(ctx *core.Ctx) {
 		}
 	}
 	rec(nil)
+	// result-set column names that look alike (case twins, names that look like a de-duplicated other name,
+	// blanks at the ends, printf verbs): two and three columns, every ordered selection
+	nameAlphaR := []string{"id", "ID", "Id", "id_2", "ID_2", "id2", "id_1", " id", "id ", "i d", "%d", "%s"}
+	for i1, n1 := range nameAlphaR {
+		for i2, n2 := range nameAlphaR {
+			if i1 == i2 {
+				continue
+			}
+			if ctx.Mine() {
+				execR(readSQLCase{Kind: "readsql", Cols: []string{n1, n2}, ColKinds: []string{"int", "string"}, Coerce: []string{"", ""}, Rows: [][]string{{"1", "a"}, {"2", "NULL"}}})
+			}
+			for i3, n3 := range nameAlphaR[:6] {
+				if i3 == i1 || i3 == i2 || !ctx.Mine() {
+					continue
+				}
+				execR(readSQLCase{Kind: "readsql", Cols: []string{n1, n2, n3}, ColKinds: []string{"int", "string", "float"}, Coerce: []string{"", "", ""}, Rows: [][]string{{"1", "a", "0.5"}, {"2", "NULL", "1.5"}}})
+			}
+		}
+	}
 }
 
 func init() {
